@@ -161,7 +161,8 @@ class BaseManager:
     def _generate_ack_id(self, sid, callback):
         """Generate a unique identifier for an ACK packet."""
         if sid not in self.callbacks:
-            self.callbacks[sid] = {_ack_counter: itertools.count(1)}
+            self.callbacks.setdefault(
+                sid, {_ack_counter: itertools.count(1)})
         id = next(self.callbacks[sid][_ack_counter])
         self.callbacks[sid][id] = callback
         return id
